@@ -93,6 +93,15 @@ pub fn base_stats(scn: &Scenario, res: &RunResult) -> RunStats {
     st.threads = scn.threads.len() as u64;
     st.interleaving = res.sched.signature;
     let mut fault_set = 0u64;
+    for (t, ops) in scn.threads.iter().enumerate() {
+        for (i, op) in ops.iter().enumerate() {
+            if let Op::Call { fault: Some(Fault::WhileUnwinding), .. } = op {
+                if res.log.calls.iter().any(|c| c.op == (t as u8, i as u16)) {
+                    *st.faults.entry("call_made_while_unwinding".to_string()).or_default() += 1;
+                }
+            }
+        }
+    }
     for c in &res.log.calls {
         match &c.outcome {
             Some(Outcome::UserPanic(f)) => {
@@ -255,6 +264,15 @@ fn gen_coarse(prop: &str, base_seed: u64, batch: &str, run: u64, rng: &mut Rng) 
         "C01" => {
             co.ordered_pct = 8;
             co.max_segs = 2;
+            // wide mocks: more than twenty patterns of six or seven interleaved methods
+            if rng.chance(1, 12) {
+                co.min_methods = 6;
+                co.max_methods = 7;
+                co.min_patterns = 4;
+                co.max_patterns = 6;
+                co.ordered_pct = 0;
+                ho.max_calls = 16;
+            }
         }
         "C02" => {
             co.ordered_pct = 30;
@@ -269,8 +287,8 @@ fn gen_coarse(prop: &str, base_seed: u64, batch: &str, run: u64, rng: &mut Rng) 
             ho.max_calls = 15;
             ho.finish_weights = [50, 30, 20];
             // generic instantiations share one Trait::method path
-            co.pool.extend([M::GenU8, M::GenU16, M::GmU8, M::GmU16]);
-            ho.pool.extend([M::GenU8, M::GenU16, M::GmU8, M::GmU16]);
+            co.pool.extend([M::GenU8, M::GenU16, M::GmU8, M::GmU16, M::GiU8, M::GiU16]);
+            ho.pool.extend([M::GenU8, M::GenU16, M::GmU8, M::GmU16, M::GiU8, M::GiU16]);
         }
         "C04" => {
             co.ordered_pct = 75;
@@ -366,11 +384,16 @@ pub fn check_isolated(scn: &Scenario) -> Checked {
             exe = std::path::PathBuf::from(s);
         }
     }
+    // fault injection on the process environment: a standard error stream that rejects every write
+    let stderr = match (scn.knob("stderr_full"), std::fs::OpenOptions::new().write(true).open("/dev/full")) {
+        (Some(1), Ok(f)) => Stdio::from(f),
+        _ => Stdio::piped(),
+    };
     let mut child = match Command::new(exe)
         .arg("isolated")
         .stdin(Stdio::piped())
         .stdout(Stdio::piped())
-        .stderr(Stdio::piped())
+        .stderr(stderr)
         .spawn()
     {
         Ok(c) => c,
